@@ -684,7 +684,16 @@ func (g *gcase) fanCase() {
 		g.out.P("chk")
 		g.out.P("begin %s", g.head)
 		g.cur = cloneSet(g.vkeys[g.head])
-		switch x := r.Intn(10); {
+		switch x := r.Intn(12); {
+		case x >= 10:
+			// the only operation deletes a key that is not stored but ends exactly on an inner node (P, if it holds no
+			// entry) or inside / beyond the tree: not a change - no channel may close, the root watch stays open
+			g.out.P("del %s", hx.Hex(P))
+			delete(g.cur, string(P))
+			if r.Chance(40) {
+				k := cat(child(spare[3]), []byte{1})
+				g.out.P("del %s", hx.Hex(k))
+			}
 		case x < 5: // delete one or two children (the last ones, the first one, or a random one)
 			for i, n := 0, 1+r.Intn(2); i < n && i < N; i++ {
 				b := next[N-1-i]
